@@ -37,6 +37,8 @@ type upstream struct {
 	ln      net.Listener
 	accepts atomic.Int64
 	conns   []net.Conn
+	// held: while the upstream is down its port stays bound (not listening), so that nobody else gets it
+	held func()
 }
 
 func newUpstream(t hx.TB, up bool) *upstream {
@@ -49,9 +51,17 @@ func newUpstream(t hx.TB, up bool) *upstream {
 		u.ln = ln
 		go u.loop(ln)
 	} else {
-		_ = ln.Close() // keeps the port number; a closed port refuses at once
+		_ = ln.Close() // a port nobody listens on refuses at once
+		u.hold()
 	}
 	return u
+}
+
+// hold keeps the port of an upstream that is down (caller holds u.mu or owns u).
+func (u *upstream) hold() {
+	if rel, err := hx.HoldPort(u.addr); err == nil {
+		u.held = rel
+	}
 }
 
 func (u *upstream) loop(ln net.Listener) {
@@ -81,8 +91,13 @@ func (u *upstream) up(t hx.TB) bool {
 	if u.ln != nil {
 		return true
 	}
+	if u.held != nil {
+		u.held()
+		u.held = nil
+	}
 	ln, err := net.Listen("tcp", u.addr)
 	if err != nil {
+		u.hold()
 		return false // the port may have been taken by somebody else meanwhile: the action is skipped
 	}
 	u.ln = ln
@@ -97,6 +112,7 @@ func (u *upstream) stopListening() {
 	if u.ln != nil {
 		_ = u.ln.Close()
 		u.ln = nil
+		u.hold()
 	}
 }
 
@@ -106,11 +122,23 @@ func (u *upstream) down() {
 	if u.ln != nil {
 		_ = u.ln.Close()
 		u.ln = nil
+		u.hold()
 	}
 	for _, c := range u.conns {
 		_ = c.Close()
 	}
 	u.conns = nil
+}
+
+// release gives the port back at the end of a case.
+func (u *upstream) release() {
+	u.down()
+	u.mu.Lock()
+	defer u.mu.Unlock()
+	if u.held != nil {
+		u.held()
+		u.held = nil
+	}
 }
 
 // ---- loading the proxy handler as Caddy does ----
@@ -176,7 +204,7 @@ func TestPassiveFailureWindow(t *testing.T) {
 			delete(passive, "max_fails")
 		}
 		u1, u2 := newUpstream(rt, false), newUpstream(rt, true)
-		defer u2.down()
+		defer u2.release()
 		h, cancel := loadProxy(rt, map[string]any{
 			"upstreams":      []map[string]any{{"dial": []string{u1.addr}}, {"dial": []string{u2.addr}}},
 			"health_checks":  map[string]any{"passive": passive},
@@ -351,7 +379,7 @@ func TestRetryWindow(t *testing.T) {
 			comeBack = time.Duration(rapid.IntRange(20, int((D-I-80*time.Millisecond)/time.Millisecond)).Draw(rt, "backAfterMs")) * time.Millisecond
 		}
 		u1 := newUpstream(rt, false)
-		defer u1.down()
+		defer u1.release()
 		h, cancel := loadProxy(rt, map[string]any{
 			"upstreams":      []map[string]any{{"dial": []string{u1.addr}}},
 			"health_checks":  map[string]any{"passive": map[string]any{"fail_duration": "30s", "max_fails": 100000}}, // only to count attempts
@@ -418,7 +446,7 @@ func TestActiveChecks(t *testing.T) {
 	rapid.Check(t, func(rt *rapid.T) {
 		iv := time.Duration(rapid.IntRange(50, 100).Draw(rt, "intervalMs")) * time.Millisecond
 		u1 := newUpstream(rt, rapid.Bool().Draw(rt, "startsUp"))
-		defer u1.down()
+		defer u1.release()
 		h, cancel := loadProxy(rt, map[string]any{
 			"upstreams":     []map[string]any{{"dial": []string{u1.addr}}},
 			"health_checks": map[string]any{"active": map[string]any{"interval": iv.String(), "timeout": "500ms"}},
@@ -483,8 +511,8 @@ func TestConnectionLimits(t *testing.T) {
 		m := rapid.IntRange(1, 3).Draw(rt, "limit")
 		viaPassive := rapid.Bool().Draw(rt, "viaUnhealthyConnectionCount")
 		u1, u2 := newUpstream(rt, true), newUpstream(rt, true)
-		defer u1.down()
-		defer u2.down()
+		defer u1.release()
+		defer u2.release()
 		cfg := map[string]any{"load_balancing": map[string]any{"selection": map[string]any{"policy": "first"}}}
 		if viaPassive {
 			cfg["upstreams"] = []map[string]any{{"dial": []string{u1.addr}}, {"dial": []string{u2.addr}, "max_connections": 1000}}
@@ -588,8 +616,8 @@ func TestReloadAndActiveRecoveryKeepTheWindow(t *testing.T) {
 		withActive := rapid.Bool().Draw(rt, "activeChecks")
 		reload := rapid.Bool().Draw(rt, "reload") || !withActive
 		u1, u2 := newUpstream(rt, true), newUpstream(rt, true)
-		defer u1.down()
-		defer u2.down()
+		defer u1.release()
+		defer u2.release()
 		cfg := map[string]any{
 			"upstreams":      []map[string]any{{"dial": []string{u1.addr}}, {"dial": []string{u2.addr}}},
 			"health_checks":  map[string]any{"passive": map[string]any{"fail_duration": F.String(), "max_fails": 1}},
